@@ -135,6 +135,10 @@ def main():
               "4 evaluation paths each; non-trivial = distinct (model, quadruple) with at least one closed path" % (len(ms) - len(ms3), len(ms3)))
     c.trusted = ["TLC", "tools/exact.py: symbolic time-ordered integration of exponentials (about 40 lines) and evaluation (mpmath)"]
     c.assumptions = ["exact family only", "tolerance 1e-8 (1 + sum |path terms|)"]
+    # the container every part accumulates its Lehmann terms in (spec/TermList.tla): like terms are merged, nothing is lost except by the
+    # negligibility rule -- every add_term history of a catalogue with chains of nearly equal poles, replayed on the real template
+    import termlist
+    termlist.run(c, ["NR", "R"], thorough)
     # call histories of the documented workflow (spec/Workflow.tla): repeated prepare()/compute() are no-ops, a call changes the data of
     # its own object only, and whatever the history, the finished object holds the data of the canonical linear order
     import workflow
